@@ -16,8 +16,8 @@ def qrShow (r : Except Err QrPayload.Qr) (serial : String) : String :=
   | .error e => exErr e
 
 /-- specification: which QR texts must be refused (written from the property text: missing prefix,
-invalid base-38 character, impossible length class, too short for the fixed fields, undefined
-commissioning flow) -/
+invalid base-38 character, impossible length class, too short for the fixed fields; the field-level rules —
+version 0 only, undefined commissioning flow — are checked on the accepted payload in `stepQr`) -/
 def qrSpecMustReject (s : List Nat) : Bool :=
   match QrPayload.stripPrefix s with
   | none => true
@@ -58,7 +58,9 @@ def stepQr (op : List String) (out : String) : String :=
         if isPanic out then some "decoder panicked"
         else if qrSpecMustReject s && !(out.startsWith "err ") then some "invalid QR text accepted"
         else match words out with
-          | ["ok", _, _, _, f, _, _, _, _, _] => if f = "0" ∨ f = "1" ∨ f = "2" then none else some "undefined commissioning flow accepted"
+          | ["ok", v, _, _, f, _, _, _, _, _] =>
+            if v ≠ "0" then some "QR payload with a version other than 0 (a future format) accepted"
+            else if f = "0" ∨ f = "1" ∨ f = "2" then none else some "undefined commissioning flow accepted"
           | _ => none
       verdict model out ora
   | _ => "BAD op"
@@ -299,7 +301,10 @@ def advShow (r : Except Err (Option BleAdv.Adv)) : String :=
   | .ok none => "none"
   | .error e => exErr e
 
-/-- commissionable advertisement: modelled (`Model/Codec/BleAdv.lean`); the recovery advertisement: oracle only -/
+/-- commissionable advertisement: modelled (`Model/Codec/BleAdv.lean`). The recovery advertisement (`rrt` and its half of
+`dec`) is modelled too (`Model/Codec/BleRecovery.lean`) and answered by `Driver.C17Discovery.stepAdv`, which calls this
+function for `rt` and for the `AdvData` half of `dec`; the `rrt` branch below (oracle only) predates it and is no longer
+reached from `Driver.C17` -/
 def stepAdv (op : List String) (out : String) : String :=
   if isPanic out then "ORA decoder panicked" else
   match op with
